@@ -193,6 +193,8 @@ theorem append_view_snd (dst src : Triples) (n : Nat) (hs : src.WF) :
     obtain ⟨ha, hb, hc⟩ := append_wget_snd dst src n i hs hi
     rw [ha, hb, hc, List.getElem?_drop, getElem?_view, if_pos (by omega), Nat.add_comm]
 
+-- `hd` is part of the interface (the Go precondition) although the proof does not need it
+set_option linter.unusedVariables false in
 theorem append_spec (dst src : Triples) (n : Nat) (hd : dst.WF) (hs : src.WF) :
     let r := dst.append src n
     let k := min ((n + 63) / 64) src.words
@@ -202,6 +204,7 @@ theorem append_spec (dst src : Triples) (n : Nat) (hd : dst.WF) (hs : src.WF) :
   ⟨rfl, rfl, rfl, append_WF_fst dst src n, append_WF_snd dst src n hs, append_view_fst dst src n,
     append_view_snd dst src n hs⟩
 
+set_option linter.unusedVariables false in
 theorem append_fresh (dst src : Triples) (n : Nat) (hd : dst.WF) (hs : src.WF) (hw : dst.words = 0)
     (hk : (n + 63) / 64 ≤ src.words) :
     let r := dst.append src n
@@ -220,5 +223,219 @@ theorem append_fresh (dst src : Triples) (n : Nat) (hd : dst.WF) (hs : src.WF) (
   · intro i hi
     have := append_wget_snd dst src n i hs (by omega)
     rwa [hmin] at this
+
+/-! ### the pool -/
+
+/-- Everything that is or will be in the pool, in order. -/
+def stream (pool : Triples) (ticks : List (List Triples)) : List (Word × Word × Word) :=
+  pool.view ++ (ticks.flatten.flatMap Triples.view)
+
+set_option linter.unusedVariables false in
+theorem poolArrive_spec (pool b : Triples) (hp : pool.WF) (hb : b.WF) :
+    (poolArrive pool b).WF ∧ (poolArrive pool b).view = pool.view ++ b.view := by
+  refine ⟨append_WF_fst _ _ _, ?_⟩
+  unfold poolArrive
+  rw [append_view_fst, List.take_of_length_le]
+  rw [length_view]
+  omega
+
+theorem foldl_poolArrive_spec (tick : List Triples) (pool : Triples) (hp : pool.WF)
+    (hb : ∀ b ∈ tick, b.WF) :
+    (tick.foldl poolArrive pool).WF ∧
+      (tick.foldl poolArrive pool).view = pool.view ++ tick.flatMap Triples.view := by
+  induction tick generalizing pool with
+  | nil => simpa using hp
+  | cons b tick ih =>
+    obtain ⟨h1, h2⟩ := poolArrive_spec pool b hp (hb b (by simp))
+    obtain ⟨h3, h4⟩ := ih (poolArrive pool b) h1 (fun x hx => hb x (by simp [hx]))
+    refine ⟨h3, ?_⟩
+    rw [List.foldl_cons, h4, h2, List.flatMap_cons, List.append_assoc]
+
+theorem stream_cons (pool : Triples) (tick : List Triples) (rest : List (List Triples))
+    (hp : pool.WF) (hb : ∀ b ∈ tick, b.WF) :
+    stream pool (tick :: rest) = stream (tick.foldl poolArrive pool) rest := by
+  unfold stream
+  rw [(foldl_poolArrive_spec tick pool hp hb).2, List.flatten_cons, List.flatMap_append,
+    List.append_assoc]
+
+/-- Words `Get` still has to fetch at offset `ofs`. -/
+def need (count ofs : Nat) : Nat := (count - ofs + 63) / 64
+
+theorem need_eq_zero (count ofs : Nat) : need count ofs = 0 ↔ count ≤ ofs := by
+  unfold need; omega
+
+theorem need_step (count ofs k : Nat) (hk : k ≤ need count ofs) :
+    need count (ofs + k * 64) = need count ofs - k := by
+  unfold need at *; omega
+
+/-- The effect of one non-waiting iteration on the stream. -/
+theorem append_stream (dst pool : Triples) (rest : List (List Triples)) (n : Nat) (hp : pool.WF) :
+    let k := min ((n + 63) / 64) pool.words
+    (dst.append pool n).1.view = dst.view ++ (stream pool rest).take k ∧
+    stream (dst.append pool n).2.1 rest = (stream pool rest).drop k ∧
+    k ≤ (stream pool rest).length := by
+  intro k
+  have hk : k ≤ pool.view.length := by rw [length_view]; exact Nat.min_le_right _ _
+  refine ⟨?_, ?_, ?_⟩
+  · rw [append_view_fst]
+    unfold stream
+    rw [List.take_append_of_le_length hk]
+  · unfold stream
+    rw [append_view_snd _ _ _ hp, List.drop_append_of_le_length hk]
+  · unfold stream
+    rw [List.length_append]
+    omega
+
+theorem poolGet_spec (count : Nat) (ticks : List (List Triples)) :
+    ∀ (ofs : Nat) (pool dst pool' dst' : Triples) (rest : List (List Triples)),
+      pool.WF → dst.WF → (∀ t ∈ ticks, ∀ b ∈ t, b.WF) →
+      poolGet count ticks ofs pool dst = some (pool', dst', rest) →
+      dst'.view = dst.view ++ (stream pool ticks).take (need count ofs) ∧
+      stream pool' rest = (stream pool ticks).drop (need count ofs) ∧
+      need count ofs ≤ (stream pool ticks).length ∧ pool'.WF ∧ dst'.WF := by
+  induction ticks with
+  | nil =>
+    intro ofs pool dst pool' dst' rest hp hd _ h
+    simp only [poolGet] at h
+    split at h
+    · next hc =>
+      simp only [Option.some.injEq, Prod.mk.injEq] at h
+      obtain ⟨rfl, rfl, rfl⟩ := h
+      rw [(need_eq_zero count ofs).2 hc]
+      simp [hp, hd]
+    · exact absurd h (by simp)
+  | cons tick ticks ih =>
+    intro ofs pool dst pool' dst' rest hp hd hb h
+    have hbt : ∀ b ∈ tick, b.WF := hb tick (by simp)
+    have hbr : ∀ t ∈ ticks, ∀ b ∈ t, b.WF := fun t ht => hb t (by simp [ht])
+    simp only [poolGet] at h
+    split at h
+    · next hc =>
+      simp only [Option.some.injEq, Prod.mk.injEq] at h
+      obtain ⟨rfl, rfl, rfl⟩ := h
+      rw [(need_eq_zero count ofs).2 hc]
+      simp [hp, hd]
+    · next hc =>
+      obtain ⟨hp1, _⟩ := foldl_poolArrive_spec tick pool hp hbt
+      rw [stream_cons pool tick ticks hp hbt]
+      split at h
+      · exact ih ofs _ dst pool' dst' rest hp1 hd hbr h
+      · next hne =>
+        obtain ⟨hv1, hs1, hk1⟩ := append_stream dst (tick.foldl poolArrive pool) ticks (count - ofs) hp1
+        have hkn : min ((count - ofs + 63) / 64) (tick.foldl poolArrive pool).words ≤ need count ofs :=
+          Nat.min_le_left _ _
+        obtain ⟨h1, h2, h3, h4, h5⟩ := ih _ _ _ pool' dst' rest (append_WF_snd dst _ (count - ofs) hp1)
+          (append_WF_fst dst _ (count - ofs)) hbr h
+        rw [append_ret, need_step count ofs _ hkn] at h1 h2 h3
+        generalize min ((count - ofs + 63) / 64) (tick.foldl poolArrive pool).words = k at *
+        generalize stream (tick.foldl poolArrive pool) ticks = S at *
+        rw [hs1] at h2 h3
+        rw [hv1, hs1] at h1
+        rw [List.length_drop] at h3
+        refine ⟨?_, ?_, by omega, h4, h5⟩
+        · rw [h1, List.append_assoc, ← List.take_add, Nat.add_sub_cancel' hkn]
+        · rw [h2, List.drop_drop, Nat.add_sub_cancel' hkn]
+
+/-- Lockstep: whatever the arrival schedule, a `Get(count)` that returns has moved exactly the next
+`⌈count/64⌉` words of the stream to the destination, in order, and left the rest of the stream. -/
+theorem gmw_pool_lockstep (count : Nat) (ticks : List (List Triples)) (pool dst pool' dst' : Triples)
+    (rest : List (List Triples)) (hp : pool.WF) (hd : dst.WF) (hb : ∀ t ∈ ticks, ∀ b ∈ t, b.WF)
+    (h : poolGet count ticks 0 pool dst = some (pool', dst', rest)) :
+    dst'.view = dst.view ++ (stream pool ticks).take ((count + 63) / 64) ∧
+    stream pool' rest = (stream pool ticks).drop ((count + 63) / 64) ∧
+    (count + 63) / 64 ≤ (stream pool ticks).length ∧ pool'.WF ∧ dst'.WF :=
+  poolGet_spec count ticks 0 pool dst pool' dst' rest hp hd hb h
+
+/-- Timing independence: two schedules carrying the same stream give the same destination content. -/
+theorem gmw_pool_timing_independent (count : Nat) (t1 t2 : List (List Triples)) (pool dst p1 d1 p2 d2 : Triples)
+    (r1 r2 : List (List Triples)) (hp : pool.WF) (hd : dst.WF)
+    (hb1 : ∀ t ∈ t1, ∀ b ∈ t, b.WF) (hb2 : ∀ t ∈ t2, ∀ b ∈ t, b.WF)
+    (hs : stream pool t1 = stream pool t2)
+    (h1 : poolGet count t1 0 pool dst = some (p1, d1, r1)) (h2 : poolGet count t2 0 pool dst = some (p2, d2, r2)) :
+    d1.view = d2.view ∧ stream p1 r1 = stream p2 r2 := by
+  obtain ⟨a1, b1, _⟩ := gmw_pool_lockstep count t1 pool dst p1 d1 r1 hp hd hb1 h1
+  obtain ⟨a2, b2, _⟩ := gmw_pool_lockstep count t2 pool dst p2 d2 r2 hp hd hb2 h2
+  rw [a1, a2, b1, b2, hs]
+  exact ⟨rfl, rfl⟩
+
+/-! ### progress -/
+
+theorem poolGet_cons_nil (count : Nat) (rest : List (List Triples)) (ofs : Nat) (pool dst : Triples) :
+    poolGet count ([] :: rest) ofs pool dst =
+      if count ≤ ofs then some (pool, dst, [] :: rest) else
+      if pool.words = 0 then poolGet count rest ofs pool dst else
+      poolGet count rest (ofs + (dst.append pool (count - ofs)).2.2) (dst.append pool (count - ofs)).2.1
+        (dst.append pool (count - ofs)).1 := by
+  rw [poolGet]
+  rfl
+
+/-- Once the pool itself holds enough words, `need + 0` further (empty) ticks suffice: every
+iteration takes at least one word. -/
+theorem poolGet_pad (count : Nat) (pad : Nat) :
+    ∀ (ofs : Nat) (pool dst : Triples), pool.WF → need count ofs ≤ pool.words → need count ofs ≤ pad →
+      (poolGet count (List.replicate pad []) ofs pool dst).isSome = true := by
+  induction pad with
+  | zero =>
+    intro ofs pool dst _ _ hn
+    have hc : count ≤ ofs := (need_eq_zero count ofs).1 (by omega)
+    simp [poolGet, hc]
+  | succ pad ih =>
+    intro ofs pool dst hp hw hn
+    rw [List.replicate_succ, poolGet_cons_nil]
+    split
+    · rfl
+    · next hc =>
+      have hpos : 0 < need count ofs := by
+        have := need_eq_zero count ofs
+        omega
+      have hne : ¬pool.words = 0 := by omega
+      rw [if_neg hne]
+      have hmin : min ((count - ofs + 63) / 64) pool.words = need count ofs := Nat.min_eq_left hw
+      apply ih
+      · exact append_WF_snd dst pool (count - ofs) hp
+      · rw [append_ret, append_words_snd, hmin, need_step count ofs _ (Nat.le_refl _)]
+        omega
+      · rw [append_ret, hmin, need_step count ofs _ (Nat.le_refl _)]
+        omega
+
+theorem poolGet_returns_aux (count : Nat) (ticks : List (List Triples)) :
+    ∀ (ofs : Nat) (pool dst : Triples), pool.WF → (∀ t ∈ ticks, ∀ b ∈ t, b.WF) →
+      need count ofs ≤ (stream pool ticks).length →
+      ∃ pad, (poolGet count (ticks ++ List.replicate pad []) ofs pool dst).isSome = true := by
+  induction ticks with
+  | nil =>
+    intro ofs pool dst hp _ hn
+    refine ⟨need count ofs, ?_⟩
+    rw [List.nil_append]
+    apply poolGet_pad count _ ofs pool dst hp _ (Nat.le_refl _)
+    simpa [stream, length_view] using hn
+  | cons tick ticks ih =>
+    intro ofs pool dst hp hb hn
+    have hbt : ∀ b ∈ tick, b.WF := hb tick (by simp)
+    have hbr : ∀ t ∈ ticks, ∀ b ∈ t, b.WF := fun t ht => hb t (by simp [ht])
+    by_cases hc : count ≤ ofs
+    · exact ⟨0, by simp [poolGet, hc]⟩
+    · obtain ⟨hp1, _⟩ := foldl_poolArrive_spec tick pool hp hbt
+      rw [stream_cons pool tick ticks hp hbt] at hn
+      simp only [List.cons_append, poolGet, if_neg hc]
+      by_cases hz : (tick.foldl poolArrive pool).words = 0
+      · simp only [if_pos hz]
+        exact ih ofs _ dst hp1 hbr hn
+      · simp only [if_neg hz]
+        apply ih _ _ _ (append_WF_snd dst _ (count - ofs) hp1) hbr
+        obtain ⟨_, hs1, hk1⟩ := append_stream dst (tick.foldl poolArrive pool) ticks (count - ofs) hp1
+        have hkn : min ((count - ofs + 63) / 64) (tick.foldl poolArrive pool).words ≤ need count ofs :=
+          Nat.min_le_left _ _
+        rw [append_ret, need_step count ofs _ hkn, hs1, List.length_drop]
+        omega
+
+set_option linter.unusedVariables false in
+/-- Progress: if the schedule delivers enough words and is padded with enough (possibly empty) ticks,
+`Get` returns.  (One tick per loop iteration; an iteration either waits or takes at least one word.) -/
+theorem poolGet_returns (count : Nat) (ticks : List (List Triples)) (pool dst : Triples)
+    (hp : pool.WF) (hd : dst.WF) (hb : ∀ t ∈ ticks, ∀ b ∈ t, b.WF)
+    (henough : (count + 63) / 64 ≤ (stream pool ticks).length) :
+    ∃ pad, (poolGet count (ticks ++ List.replicate pad []) 0 pool dst).isSome = true :=
+  poolGet_returns_aux count ticks 0 pool dst hp hb henough
 
 end Mpc.Gmw
